@@ -1671,6 +1671,40 @@ def rt_class_annotations(req):
 RT['class_annotations'] = rt_class_annotations
 
 
+_D47_SRC = '''
+from sigtools import modifiers
+def inner(p, q=1): pass
+@modifiers.annotate(x=int)
+def w(x, *args, **kwargs): return inner(*args, **kwargs)
+@modifiers.annotate(float, x=int)
+def w_ret(x, *args, **kwargs): return inner(*args, **kwargs)
+@modifiers.annotate(x=int)
+def plain(x, y=2): pass
+'''
+
+
+def rt_annotate_discovery(req):
+    """deterministic probe (finding D47): values given to modifiers.annotate must be reported through automatic discovery too"""
+    from . import progs
+    mod, fname = progs.load_module(_D47_SRC)
+    problems = []
+    try:
+        with warnings.catch_warnings():
+            warnings.simplefilter('ignore')
+            for name, want_x, want_ret in (('w', int, inspect.Signature.empty), ('w_ret', int, float), ('plain', int, inspect.Signature.empty)):
+                sg = sigtools.signature(getattr(mod, name)).evaluated()
+                got_x = sg.parameters['x'].annotation
+                if got_x is not want_x or sg.return_annotation is not want_ret:
+                    problems.append('annotate-lost-in-discovery: sigtools.signature(%s) = %s: the annotations given to modifiers.annotate '
+                                    '(x=%r, return %r) are not reported once the forwarding is discovered' % (name, sg, want_x, want_ret))
+    finally:
+        progs.unload(fname)
+    return ('ok', tuple(problems[:1]), 'probed')
+
+
+RT['annotate_discovery'] = rt_annotate_discovery
+
+
 # ----------------------------------------------------------------------------- C18: re-decoration after use
 def _redeco_class(scenario):
     if scenario == 'pos_self_a':
